@@ -26,6 +26,20 @@ import (
 type icSpec struct {
 	Path  string `json:"path"`
 	Alias string `json:"alias"`
+	Quote string `json:"quote,omitempty"` // how the path literal is written: "" = "path", "raw" = `path`, "esc" = first byte as \xNN
+}
+
+// the path literal of an import spec in one of the three spellings the language allows
+func (s icSpec) literal() string {
+	switch s.Quote {
+	case "raw":
+		return "`" + s.Path + "`"
+	case "esc":
+		if len(s.Path) > 0 {
+			return fmt.Sprintf("\"\\x%02x%s\"", s.Path[0], s.Path[1:])
+		}
+	}
+	return strconv.Quote(s.Path)
 }
 
 type icConfig struct {
@@ -39,6 +53,7 @@ type icConfig struct {
 
 var icPool = []string{"fmt", "os", "io", "strings", "math/rand", "crypto/rand", "text/template", "html/template",
 	"example.com/a", "example.com/b/rand", "github.com/x/fmt", "github.com/x/y", "gopkg.in/yaml.v2",
+	"example.com/rand1", "z.org/fmt1", // their names are what the conflict loop generates for a second "rand" / "fmt"
 	"B/x"} // sorts before "C": a blank or dot import of it is processed before the cgo import
 
 func icDefaultName(p string) string {
@@ -73,7 +88,7 @@ func genImportConfig(r *rand.Rand, allowFail bool, allowDupPaths bool) icConfig 
 	for _, p := range icPool {
 		c.Resolver[p] = icDefaultName(p)
 	}
-	aliases := []string{"", "", "", "_", ".", "x", "rand", "fmt", "a", "y1"}
+	aliases := []string{"", "", "", "", "_", ".", "x", "rand", "fmt", "a", "y1", "rand1", "fmt1", "rand2"}
 	nb := r.Intn(4)
 	k := 0
 	seenPath := map[string]bool{}
@@ -90,12 +105,12 @@ func genImportConfig(r *rand.Rand, allowFail bool, allowDupPaths bool) icConfig 
 				}
 			}
 			seenPath[p] = true
-			specs = append(specs, icSpec{p, aliases[r.Intn(len(aliases))]})
+			specs = append(specs, icSpec{Path: p, Alias: aliases[r.Intn(len(aliases))], Quote: []string{"", "", "", "", "raw", "esc"}[r.Intn(6)]})
 		}
 		if r.Intn(8) == 0 {
 			// "C" anywhere in a block, also first
 			at := r.Intn(len(specs) + 1)
-			specs = append(specs[:at], append([]icSpec{{"C", ""}}, specs[at:]...)...)
+			specs = append(specs[:at], append([]icSpec{{Path: "C"}}, specs[at:]...)...)
 		}
 		if len(specs) == 0 {
 			continue
@@ -105,7 +120,7 @@ func genImportConfig(r *rand.Rand, allowFail bool, allowDupPaths bool) icConfig 
 	}
 	if r.Intn(10) == 0 {
 		// a leading cgo-only block
-		c.Blocks = append([][]icSpec{{{"C", ""}}}, c.Blocks...)
+		c.Blocks = append([][]icSpec{{{Path: "C", Quote: []string{"", "raw"}[r.Intn(2)]}}}, c.Blocks...)
 		c.Paren = append([]bool{false}, c.Paren...)
 	}
 	nu := r.Intn(6)
@@ -120,7 +135,7 @@ func genImportConfig(r *rand.Rand, allowFail bool, allowDupPaths bool) icConfig 
 	}
 	na := r.Intn(3)
 	for i := 0; i < na; i++ {
-		c.Alias[icPool[r.Intn(len(icPool))]] = []string{"", "z", "rand", "_", ".", "fmt"}[r.Intn(6)]
+		c.Alias[icPool[r.Intn(len(icPool))]] = []string{"", "z", "rand", "_", ".", "fmt", "rand1", "fmt1"}[r.Intn(8)]
 	}
 	if allowFail && r.Intn(3) == 0 && len(c.Used) > 0 {
 		delete(c.Resolver, c.Used[r.Intn(len(c.Used))])
@@ -136,7 +151,7 @@ func icBuild(c icConfig) (*dst.File, []*dst.GenDecl) {
 		gd.Decs.Before = dst.EmptyLine
 		gd.Decs.After = dst.EmptyLine
 		for _, s := range b {
-			is := &dst.ImportSpec{Path: &dst.BasicLit{Kind: token.STRING, Value: strconv.Quote(s.Path)}}
+			is := &dst.ImportSpec{Path: &dst.BasicLit{Kind: token.STRING, Value: s.literal()}}
 			if s.Alias != "" {
 				is.Name = dst.NewIdent(s.Alias)
 			}
@@ -181,7 +196,7 @@ func icRun(c icConfig) (o icObs, f *dst.File) {
 	f, orig := icBuild(c)
 	cgoOnly := map[*dst.GenDecl]bool{}
 	for _, gd := range orig {
-		if len(gd.Specs) == 1 && gd.Specs[0].(*dst.ImportSpec).Path.Value == `"C"` {
+		if p, _ := strconv.Unquote(gd.Specs[0].(*dst.ImportSpec).Path.Value); len(gd.Specs) == 1 && p == "C" {
 			cgoOnly[gd] = true
 		}
 	}
@@ -460,7 +475,7 @@ func c07Prop(c *Ctx) {
 		}
 	}
 	// the recorded finding: one path imported twice under two names
-	dup := icConfig{Local: "example.com/local", Blocks: [][]icSpec{{{"fmt", ""}, {"fmt", "f2"}}}, Paren: []bool{true}, Used: []string{"fmt"},
+	dup := icConfig{Local: "example.com/local", Blocks: [][]icSpec{{{Path: "fmt"}, {Path: "fmt", Alias: "f2"}}}, Paren: []bool{true}, Used: []string{"fmt"},
 		Alias: map[string]string{}, Resolver: map[string]string{"fmt": "fmt"}}
 	o, _ := icRun(dup)
 	if o.Err == nil && o.Panic == "" {
